@@ -25,10 +25,16 @@ def budget(tier):
 
 
 def gen_case(seed, tier="quick"):
+    from ..core.seed import rnd
+    if rnd(seed, "engine").random() < 0.2:
+        return cond_cases.gen_c14_don(seed)
     return cond_cases.gen_c14(seed)
 
 
 def run_case(case):
+    if case.get("engine") == "donsim":
+        from .. import donsim
+        return donsim.run_c14_don(case)
     return condsim.run_c14(case)
 
 
@@ -37,5 +43,21 @@ def shrink(case):
     for i in range(len(h) - 1, -1, -1):
         if len(h) > 1:
             yield dict(case, history=h[:i] + h[i + 1:])
+    if case.get("engine") == "donsim":
+        for i in range(len(case["conds"]) - 1, -1, -1):
+            if len(case["conds"]) > 1:
+                # drop condition i (indices in the orders shift down)
+                conds = case["conds"][:i] + case["conds"][i + 1:]
+                hh = []
+                for op in h:
+                    if "order" in op:
+                        o = [j - (j > i) for j in op["order"] if j != i]
+                        if o:
+                            hh.append(dict(op, order=o))
+                    else:
+                        hh.append(op)
+                if hh:
+                    yield dict(case, conds=conds, history=hh)
+        return
     if case["sharing"].get("domains"):
         yield dict(case, sharing=dict(case["sharing"], domains=False))
